@@ -46,7 +46,7 @@ pub struct SProfile {
 pub fn sprofile(prop: &str) -> SProfile {
     use SOp::*;
     match prop {
-        "C03" => SProfile { name: "poll-unique-then-write", ops: vec![(Read, 5), (Clone, 3), (Drop, 5), (Convert, 1), (Count, 1), (Send, 2), (Recv, 2), (PollWrite, 8)], rule: "C03" },
+        "C03" => SProfile { name: "poll-unique-then-write", ops: vec![(Read, 5), (Clone, 3), (Drop, 5), (Convert, 1), (Count, 1), (Send, 2), (Recv, 2), (PollWrite, 7), (MakeMut, 4)], rule: "C03" },
         "C08" => SProfile { name: "make_mut-vs-readers", ops: vec![(Read, 6), (Clone, 3), (Drop, 4), (Convert, 1), (Send, 1), (Recv, 1), (MakeMut, 8)], rule: "C08" },
         "C09" => SProfile { name: "racing-unwrap", ops: vec![(Read, 4), (Clone, 2), (Drop, 4), (Convert, 1), (Send, 1), (Recv, 1), (Unwrap, 9)], rule: "C09" },
         _ => SProfile { name: "clone-read-drop", ops: vec![(Read, 6), (Clone, 5), (Drop, 6), (Convert, 3), (Count, 2), (Send, 3), (Recv, 3)], rule: "C02" },
